@@ -129,6 +129,11 @@ def classify(res, unit):
             rec["tool"] = True
             undecided.append(rec)
             continue
+        if kind == "invariant" and o_prim and o_prim.get("kind") == "contract" and o_prim.get("claim"):
+            # a labelled loop-invariant conjunct (INVCLAIM): the property in inductive form
+            rec["fn"], rec["label"], rec["props"] = o_prim["fn"], o_prim.get("label"), o_prim.get("props", [])
+            failures.append(rec)
+            continue
         if kind in ("rlimit", "other", "recommends", "invariant"):
             # not an obligation failure: resource limit, unsupported construct, tool message
             rec["tool"] = kind != "rlimit"
